@@ -344,7 +344,8 @@ Qed.
 
 Lemma piece_digest_ci a b : piece_ci a b -> piece_digest a = piece_digest b.
 Proof.
-  destruct a as [x|x|x]; destruct b as [y|y|y]; cbn [piece_ci]; intros H; try contradiction.
+  destruct a as [x|x|x|x]; destruct b as [y|y|y|y]; cbn [piece_ci]; intros H; try contradiction.
+  4:{ subst. reflexivity. }
   - subst. reflexivity.
   - cbn [piece_digest]. rewrite (ci_equal_absolute _ _ H). destruct (is_absolute y).
     + rewrite (wire_labels_canon_ci _ _ H). reflexivity.
